@@ -629,6 +629,101 @@ fn sub_modules(input: &[u8], st: &mut Stats) -> R {
     check_module(&m, st, &|| gm.render())
 }
 
+/// module *values* that no binary produces: loaded modules with the header, definitions,
+/// labels, ends, parameters or whole sections removed (the Builder hands out such modules
+/// while a module is under construction)
+fn sub_partial(input: &[u8], st: &mut Stats) -> R {
+    let mut cs = Cs::new(input);
+    let mode = if cs.bool() { ModMode::Ordered } else { ModMode::Interleaved };
+    let gm = gen_module(&mut cs, mode, 40);
+    let words = gm.words();
+    let Ok(mut m) = load_words(&words)? else {
+        st.count("not_loadable");
+        return Ok(());
+    };
+    let mut removed = vec![];
+    if cs.below(4) == 0 {
+        m.header = None;
+        removed.push("header".to_string());
+    }
+    if cs.below(4) == 0 {
+        m.memory_model = None;
+        removed.push("memory_model".to_string());
+    }
+    if cs.below(6) == 0 {
+        m.types_global_values.clear();
+        removed.push("types_global_values".to_string());
+    }
+    if cs.below(6) == 0 {
+        m.ext_inst_imports.clear();
+        removed.push("ext_inst_imports".to_string());
+    }
+    for (fi, f) in m.functions.iter_mut().enumerate() {
+        if cs.below(4) == 0 {
+            f.def = None;
+            removed.push(format!("f{}.def", fi));
+        }
+        if cs.below(4) == 0 {
+            f.end = None;
+            removed.push(format!("f{}.end", fi));
+        }
+        if cs.below(6) == 0 {
+            f.parameters.clear();
+        }
+        if cs.below(8) == 0 {
+            f.blocks.clear();
+            removed.push(format!("f{}.blocks", fi));
+        }
+        for (bi, b) in f.blocks.iter_mut().enumerate() {
+            if cs.below(4) == 0 {
+                b.label = None;
+                removed.push(format!("f{}.b{}.label", fi, bi));
+            }
+            if cs.below(5) == 0 {
+                let keep = cs.below(b.instructions.len() + 1);
+                b.instructions.truncate(keep);
+                removed.push(format!("f{}.b{}.tail", fi, bi));
+            }
+        }
+    }
+    if cs.below(8) == 0 {
+        m.functions.push(dr::Function::new());
+        removed.push("empty function".to_string());
+    }
+    if !removed.is_empty() {
+        st.count("partial_modules");
+    }
+    // Removing a declaration can leave a 64-bit literal whose type is no longer known: such a
+    // value has no counterpart in any binary (the parser yields LiteralBit64 only under a
+    // declared 64-bit type) and is outside the statement's reading-back clause.
+    {
+        let mut tcs = TyCtx::new();
+        for inst in m.all_inst_iter() {
+            let (ty, lits): (Option<u32>, Vec<&Operand>) = match inst.class.opname {
+                "Constant" | "SpecConstant" => (inst.result_type, inst.operands.iter().take(1).collect()),
+                "Switch" => (
+                    match inst.operands.first() {
+                        Some(Operand::IdRef(s)) => Some(*s),
+                        _ => None,
+                    },
+                    inst.operands.iter().skip(2).step_by(2).collect(),
+                ),
+                _ => (None, vec![]),
+            };
+            if let Some(t) = ty {
+                let wide = matches!(tcs.lit_words(t), LitW::Words(2));
+                if lits.iter().any(|o| matches!(o, Operand::LiteralBit64(_)) != wide) {
+                    st.count("excluded_literal_left_without_its_type");
+                    return Ok(());
+                }
+            }
+            let ow: Vec<u32> = inst.operands.iter().filter_map(|o| if let Operand::LiteralBit32(v) = o { Some(*v) } else { None }).collect();
+            tcs.track(inst.class.opname, inst.result_type, inst.result_id, &ow);
+        }
+    }
+    check_module(&m, st, &|| format!("{}removed: {:?}", gm.render(), removed))
+}
+
 /// every sweep instruction (all opcodes, enumerants, mask values) in a minimal module
 fn sub_sweep(input: &[u8], st: &mut Stats) -> R {
     let i = idx(input);
@@ -732,6 +827,7 @@ pub const SUBS: &[Sub] = &[
     Sub { name: "modules", f: sub_modules },
     Sub { name: "neighbours", f: sub_neighbours },
     Sub { name: "edge-ids", f: sub_edge_ids },
+    Sub { name: "partial-modules", f: sub_partial },
 ];
 
 pub fn run(ctx: &Ctx) {
@@ -740,13 +836,17 @@ pub fn run(ctx: &Ctx) {
     drive_random(ctx, &SUBS[1], ctx.n(30_000, 15_000_000), 2000);
     drive_random(ctx, &SUBS[2], ctx.n(20_000, 10_000_000), 1500);
     drive_random(ctx, &SUBS[3], ctx.n(8_000, 4_000_000), 2000);
+    drive_random(ctx, &SUBS[4], ctx.n(8_000, 4_000_000), 2000);
+    if !ctx.quick() && !ctx.failed() {
+        crate::fuzzing::drive_fuzz(ctx, "modules", 200000);
+    }
 }
 
 pub fn finish(ctx: &Ctx) -> i32 {
     crate::engine::finish(
         ctx,
         Finish {
-            rule: "modules obtained by loading (a) every sweep instruction (all opcodes min/max, every enumerant, mask values incl. pairs and all bits, embedded opcodes) in a minimal module and (b) generated layout-ordered / interleaved modules (typed domain: ids defined once, literal consumers after their type declarations; strings with quotes, backslashes, control and non-ASCII characters; OpExtInst with GLSL.std.450 / OpenCL.std / unknown sets). Oracle: (1) header comment = version, tool name from the generator table, bound; exactly one line per instruction of the assembly order; (2) each line tokenises to [%id =] Op<name> [%type] operands where ids print as %n, enumerants by declared names (Dim without prefix), masks as |-joined specification names of the set bits in bit order (None for 0), strings Rust-escaped and quoted, OpConstant literals signed / unsigned / float per the declared type, extended instruction numbers by name for the two known sets; (3) the independent reader R6 reconstructs every instruction from its line; (4) metamorphic: a one-step neighbour with a different instruction stream has a different text. non-trivial = module with >= 10 lines, a string, a mask with >= 2 bits and a typed constant (sweep / neighbours: every checked case); distinct = hash of the text.",
+            rule: "modules obtained by loading (a) every sweep instruction (all opcodes min/max, every enumerant, mask values incl. pairs and all bits, embedded opcodes) in a minimal module and (b) generated layout-ordered / interleaved modules (typed domain: ids defined once, literal consumers after their type declarations; strings with quotes, backslashes, control and non-ASCII characters; OpExtInst with GLSL.std.450 / OpenCL.std / unknown sets). and (c) partial module values (loaded modules with header / definitions / labels / ends / parameters / sections removed, empty functions). Oracle: (1) header comment = version, tool name from the generator table, bound; exactly one line per instruction of the assembly order; (2) each line tokenises to [%id =] Op<name> [%type] operands where ids print as %n, enumerants by declared names (Dim without prefix), masks as |-joined specification names of the set bits in bit order (None for 0), strings Rust-escaped and quoted, OpConstant literals signed / unsigned / float per the declared type, extended instruction numbers by name for the two known sets; (3) the independent reader R6 reconstructs every instruction from its line; (4) metamorphic: a one-step neighbour with a different instruction stream has a different text. non-trivial = module with >= 10 lines, a string, a mask with >= 2 bits and a typed constant (sweep / neighbours: every checked case); distinct = hash of the text.",
             assumptions: vec!["NaN constants are excluded as the statement does".into(), "whitespace between tokens is not prescribed by the statement and not compared".into()],
             trusted_base: vec!["forward token model + text reader R6".into(), "width model R3".into(), "golden names".into()],
         },
